@@ -83,6 +83,9 @@ fn run_uniterr_local(case: &Case, out: &mut Out) {
   let mut s: Subject<Val, ()> = Subject::default();
   let order = case.field("uniterr")[0].atom().to_string();
   let mapped = case.has("umap");
+  // field `npanic v`: the subscriber's ITEM closure fails (panics) on the item v, after it has logged it; the emitting
+  // call is wrapped in catch_unwind and the history goes on
+  let npanic: Option<i64> = if case.has("npanic") { Some(case.field("npanic")[0].int()) } else { None };
   let mut sub: Option<Box<dyn FnOnce()>> = None;
   for (k, ev) in case.events.iter().enumerate() {
     out.cur = k;
@@ -95,21 +98,42 @@ fn run_uniterr_local(case: &Case, out: &mut Out) {
           let u = src
             .on_complete(move || l2.borrow_mut().push(Notif::Complete))
             .on_error(move |_: ()| l1.borrow_mut().push(Notif::Error(0)))
-            .subscribe(move |v| l3.borrow_mut().push(Notif::Next(v)));
+            .subscribe(move |v| {
+              let hit = matches!((&v, npanic), (Val::Int(i), Some(k)) if *i == k);
+              l3.borrow_mut().push(Notif::Next(v));
+              if hit {
+                panic!("the subscriber's item closure fails")
+              }
+            });
           sub = Some(Box::new(move || u.unsubscribe()));
         } else {
           let u = src
             .on_error(move |_: ()| l1.borrow_mut().push(Notif::Error(0)))
             .on_complete(move || l2.borrow_mut().push(Notif::Complete))
-            .subscribe(move |v| l3.borrow_mut().push(Notif::Next(v)));
+            .subscribe(move |v| {
+              let hit = matches!((&v, npanic), (Val::Int(i), Some(k)) if *i == k);
+              l3.borrow_mut().push(Notif::Next(v));
+              if hit {
+                panic!("the subscriber's item closure fails")
+              }
+            });
           sub = Some(Box::new(move || u.unsubscribe()));
         }
       }
-      "emit" => match Notif::parse(&ev[2]) {
-        Notif::Next(v) => s.next(v),
-        Notif::Error(_) => s.clone().error(()),
-        Notif::Complete => s.clone().complete(),
-      },
+      "emit" => {
+        let n = Notif::parse(&ev[2]);
+        let mut s2 = s.clone();
+        let go = move || match n {
+          Notif::Next(v) => s2.next(v),
+          Notif::Error(_) => s2.error(()),
+          Notif::Complete => s2.complete(),
+        };
+        if npanic.is_some() {
+          let _ = std::panic::catch_unwind(std::panic::AssertUnwindSafe(go));
+        } else {
+          go()
+        }
+      }
       "unsub" => {
         if let Some(u) = sub.take() {
           u()
